@@ -297,6 +297,11 @@ func (s *State) enterLoop(l *Loop) {
 			t := env.resolveTypeIn(tt, s.eng.ghostPkg[g])
 			s.ghostGet(g, t)
 		}
+		if ct, isChan := s.eng.chanGhostT[g]; isChan {
+			s.ghostGet(g, ct)
+		} else if strings.HasPrefix(g, "$spawns_") {
+			s.ghostGet(g, tInt)
+		}
 		if cur, ok := s.ghost[g]; ok {
 			s.ghost[g] = s.freshVal("loop:"+g, cur.T)
 		}
@@ -427,6 +432,32 @@ func (e *Engine) loopMods(s *State, l *Loop) *modSet {
 			case *ssa.Next:
 				if r, ok := in.Iter.(*ssa.Range); ok {
 					m.iters = append(m.iters, r)
+				}
+			case *ssa.Send:
+				if n := chanName(in.Chan); n != "" {
+					m.ghost["$sends_"+n] = true
+					m.ghost["$sent_"+n] = true
+				}
+			case *ssa.Select:
+				for _, st := range in.States {
+					if n := chanName(st.Chan); n != "" {
+						m.ghost["$recvs_"+n] = true
+						m.ghost["$received_"+n] = true
+					}
+				}
+			case *ssa.UnOp:
+				if in.Op == token.ARROW {
+					if n := chanName(in.X); n != "" {
+						m.ghost["$recvs_"+n] = true
+						m.ghost["$received_"+n] = true
+					}
+				}
+			case *ssa.Go:
+				m.allocs = true
+				if cal := in.Common().StaticCallee(); cal != nil {
+					m.ghost["$spawns_"+cal.Name()] = true
+				} else if mc, ok := in.Common().Value.(*ssa.MakeClosure); ok {
+					m.ghost["$spawns_"+mc.Fn.Name()] = true
 				}
 			case *ssa.MakeMap, *ssa.MakeSlice, *ssa.MakeChan, *ssa.MakeClosure, *ssa.MakeInterface:
 				m.allocs = true
@@ -645,6 +676,37 @@ func mapHeapBases(mt *types.Map) []heapBaseInfo {
 }
 
 func (s *State) havocAll() {
+	// variables captured by the current closure are private to the library: a callee cannot reach them
+	type keep struct {
+		hl  heapLeaf
+		ref string
+		old string
+	}
+	var keeps []keep
+	for _, fv := range s.fn.FreeVars {
+		pv, ok := s.regs[fv]
+		if !ok {
+			continue
+		}
+		pt := derefType(fv.Type())
+		if pt == nil {
+			continue
+		}
+		if _, isStruct := pt.Underlying().(*types.Struct); isStruct {
+			continue
+		}
+		for _, hl := range heapLeaves(cellHeapBase(pt), pt) {
+			keeps = append(keeps, keep{hl, pv.Terms[0], sel(s.heapGet(hl), pv.Terms[0])})
+		}
+	}
+	if len(keeps) > 0 {
+		s.eng.assumptionsUsed["variables captured by a library closure are private: calls with unknown effects do not change them"] = true
+	}
+	defer func() {
+		for _, k := range keeps {
+			s.assume(eq(sel(s.heapGet(k.hl), k.ref), k.old))
+		}
+	}()
 	for name := range s.heaps {
 		hl := s.eng.heapInfo[name]
 		s.heapHavoc(hl)
@@ -660,6 +722,9 @@ func (s *State) havocAll() {
 	}
 	env := s.specEnv()
 	for g, tt := range s.eng.ghostDecls {
+		if s.eng.localGhost[g] {
+			continue
+		}
 		t := env.resolveTypeIn(tt, s.eng.ghostPkg[g])
 		s.ghostGet(g, t)
 		s.ghost[g] = s.freshVal("ghost:"+g, t)
@@ -710,7 +775,8 @@ func (s *State) evalFrameItems(items []*SExpr, env *SpecEnv) []frameItem {
 func (s *State) evalFrameItem(it *SExpr, env *SpecEnv) frameItem {
 	fi := frameItem{src: it.String()}
 	if it.Op == "ident" && strings.HasPrefix(it.Name, "$") {
-		if _, ok := s.eng.ghostDecls[it.Name]; !ok {
+		_, isChan := s.eng.chanGhostT[it.Name]
+		if _, ok := s.eng.ghostDecls[it.Name]; !ok && !isChan {
 			specFail("modifies %s: undeclared ghost variable", it.Name)
 		}
 		fi.ghost = it.Name
@@ -1811,7 +1877,9 @@ func (s *State) doReturn(in *ssa.Return) {
 	if s.fnFrame != nil && !s.fnFrame.Unrestricted {
 		var gs []string
 		for g := range s.ghost {
-			if _, decl := s.eng.ghostDecls[g]; decl && !s.fnFrame.Ghost[g] {
+			_, decl := s.eng.ghostDecls[g]
+			_, isChan := s.eng.chanGhostT[g]
+			if (decl || isChan) && !s.fnFrame.Ghost[g] {
 				gs = append(gs, g)
 			}
 		}
